@@ -926,6 +926,7 @@ static htp_status_t htp_tx_res_process_body_data_decompressor_callback(htp_tx_da
                 htp_log(d->tx->connp, HTP_LOG_MARK, HTP_LOG_ERROR, 0,
                         "Compression bomb: spent %"PRId32" us decompressing",
                         d->tx->connp->out_decompressor->time_spent);
+                HTP_VERIF_PROBE("decomp.time_limit", d->tx->connp, d->tx->connp->out_decompressor->time_spent, 1);
                 d->tx->connp->out_decompressor->passthrough = 1;
             }
         }
@@ -988,6 +989,7 @@ htp_status_t htp_tx_res_process_body_data_ex(htp_tx_t *tx, const void *data, siz
                     htp_log(tx->connp, HTP_LOG_MARK, HTP_LOG_ERROR, 0,
                             "Compression bomb: spent %"PRId32" us decompressing",
                             tx->connp->out_decompressor->time_spent);
+                    HTP_VERIF_PROBE("decomp.time_limit", tx->connp, tx->connp->out_decompressor->time_spent, 2);
                     tx->connp->out_decompressor->passthrough = 1;
                 }
             }
@@ -1254,6 +1256,7 @@ htp_status_t htp_tx_state_response_complete_ex(htp_tx_t *tx, int hybrid_mode) {
         }
 
         if (yield) {
+            HTP_VERIF_PROBE("tx.yield_data_other", tx->connp, tx->request_progress, tx->response_progress);
             // The response is complete: finalize and detach the transaction before
             // yielding, not when the caller comes back. Otherwise the inbound parser,
             // which completes the request in the meantime, finalizes the transaction
